@@ -74,7 +74,7 @@ void canary_plans(const std::string &prop, CanaryList &out) {
     p.tasks[0].ops = {create(200, 1), asm_lines({"nop5", "nop5", "nop5", "nop5", "nop5"}, 2, OP_COUNT, 8)};
     out.push_back({"wrong_count_boundary", {p, "count"}});
   }
-  if (prop == "C12" || prop == "C18") {  // an option changes behind the model's back
+  if (prop == "C12") {  // an option changes behind the model's back
     Plan p = base("options");
     p.probe = true;
     Op s = mk(OP_SETTER, 0, 3);
